@@ -312,6 +312,9 @@ def record_problems(o, P):
                 partner = d.group
                 pq = getattr(partner, "charge", getattr(partner, "q", None))
                 is_ion = getattr(partner, "type", "") == "ION" or getattr(partner, "res_name", "") in P.ions
+                if is_ion and getattr(partner, "atom", None) is not None:
+                    # "times the formal charge for ions": the charge the parameter file configures for the residue name in the structure
+                    pq = P.ions.get(partner.atom.res_name.strip(), pq)
                 lim = cb_max * (abs(pq) if is_ion and pq else 1.0)
                 if abs(d.value) > lim + 1e-9:
                     probs.append("%s %s Coulomb determinant %r towards %s exceeds %r" % (cname, g.label, d.value, d.label, lim))
@@ -344,7 +347,7 @@ def record_problems(o, P):
     return probs, ndet
 
 
-def twin_ions(rnd, text):
+def twin_ions(rnd, text, which=None):
     """the structure plus two ions of the same residue name and chain, each 2 A beyond one oxygen of the most buried
     carboxylate (on the line from the carboxyl carbon through the oxygen); None if there is no complete carboxylate"""
     base = observe.run(text, [], want_text=False)
@@ -360,7 +363,12 @@ def twin_ions(rnd, text):
     if best is None:
         return None
     g, ox = best
-    ion, q = rnd.choice([("ZN", "ZN"), ("CA", "CA"), ("MG", "MG")])
+    # every ion name of the parameter file takes its turn (names with a digit - FE2, 1P, 2N - among them)
+    from propka.parameters import Parameters
+    from propka.input import read_parameter_file
+    names = sorted(read_parameter_file("propka.cfg", Parameters()).ions)
+    ion = names[rnd.randrange(len(names))] if which is None else names[which % len(names)]
+    q = "".join(c for c in ion if c.isalpha())[:2] or "X"
     lines = [l for l in pdbgen.lines_of(text) if not l.startswith("END")]
     for k, o in enumerate(ox):
         d = [o.x - g.atom.x, o.y - g.atom.y, o.z - g.atom.z]
@@ -402,10 +410,12 @@ def _run(ctx):
     # two ions of one kind in one chain (they share the printed label) at the two oxygens of the most buried carboxylate:
     # every ion keeps its own determinant, each within |Q| times the Coulomb bound
     for n, t in pdbgen.test_files(["3SGB-subset"] if ctx.quick() else ["3SGB", "1HPX"]):
-        tw = twin_ions(rnd, t)
-        if tw is not None:
-            inputs.append((n + "-twin-ions", tw))
-            ctx.count("inputs with two same-label ions at one buried carboxylate")
+        nions = len(P.ions)
+        for w in ([None] + list(range(nions)) if n.startswith("3SGB") else [None]):
+            tw = twin_ions(rnd, t, w)
+            if tw is not None:
+                inputs.append((n + "-twin-ions%s" % ("" if w is None else "-%d" % w), tw))
+                ctx.count("inputs with two same-label ions at one buried carboxylate")
     bad = []
     for name, text in inputs:
         o = observe.run(text, [], want_text=False)
